@@ -7,7 +7,7 @@ blocking) -- in this world that raises BlockedLoop, because a blocked read in th
 """
 from vtlib.world.core import BlockedLoop
 
-FIRST_FD = 10
+FIRST_FD = 1000          # far above the real descriptors of the process (real sockets of the daemon share the loop with the fake pipes)
 
 
 class FakePipeFile(object):
